@@ -73,6 +73,8 @@ pub struct World {
     /// further server instances on the same storage (SQLite: own storage object on the same
     /// directory; in-memory: own `Server` over the shared storage), each with its own clock skew.
     /// The instance in `inst`/`app` is the one currently serving; `switch_to` swaps.
+    /// C12 monotonicity, model-independent: per client (snapshot version, stored-at, age µs, versions since, urgency, targets) of the last accepted AddVersion
+    pub mono: BTreeMap<Id, (Id, i64, i64, u32, crate::model::Urg, Cfg)>,
     /// the last upload (AddVersion / AddSnapshot) as sent, for verbatim retries
     pub last_upload: Option<(Req, Chunking)>,
     pub others: Vec<(Instance, Option<HttpApp>)>,
@@ -130,6 +132,7 @@ impl World {
             tolerate_empty_clients: false,
             next_faults: Vec::new(),
             extra_ids: Default::default(),
+            mono: BTreeMap::new(),
             last_upload: None,
             others: Vec::new(),
             cur_inst: 0,
@@ -178,6 +181,7 @@ impl World {
             tolerate_empty_clients: false,
             next_faults: Vec::new(),
             extra_ids: Default::default(),
+            mono: BTreeMap::new(),
             last_upload: None,
             others: Vec::new(),
             cur_inst: 0,
@@ -553,6 +557,7 @@ impl World {
         };
         let state_class = self.state_class(&cid);
         let t = self.inst_now();
+        let pre_snap = self.model.client(&cid).and_then(|c| c.snap.as_ref()).map(|s| (s.version, s.ts_lo, s.since));
         let foreign_hold = crate::vfs::foreign_remaining();
         let resp = self.issue(&req, ch, out);
         let t2 = self.inst_now();
@@ -596,6 +601,22 @@ impl World {
             out.violations.push(m.into());
         }
         out.bump(&format!("resp.{}", resp.class()));
+        // C12, directly: with the same stored snapshot and the same targets, the urgency never
+        // decreases as the snapshot gets older and more versions pile up
+        if let (Resp::AvOk { urg, .. }, Some((sv, sts, since))) = (&resp, pre_snap) {
+            let age = t2 - sts;
+            if let Some((pv, pts, page, psince, purg, pcfg)) = self.mono.get(&cid).copied() {
+                if pv == sv && pts == sts && pcfg == self.cfg && age >= page && since >= psince && *urg < purg {
+                    out.violations.push(viol(
+                        &["C12"],
+                        "urgency.decreased",
+                        format!("client {}: urgency went from {:?} (age {} µs, {} versions since) to {:?} (age {} µs, {} versions since) for the same snapshot and targets", sid(&cid), purg, page, psince, urg, age, since),
+                    ));
+                }
+            }
+            self.mono.insert(cid, (sv, sts, age, since, *urg, self.cfg));
+            out.bump("probe.urgency_monotonicity_pair");
+        }
         // reach grid cell
         out.cells.push(crate::rng::mix(&[
             crate::rng::tag(state_class.as_str()),
